@@ -1,6 +1,8 @@
 """Generate PEP316 harness stubs, run them under CrossHair, replay and classify the outcomes."""
 from __future__ import annotations
 
+import os
+
 from dataclasses import dataclass, field
 from typing import Any, Callable, Dict, List, Optional, Sequence
 
@@ -52,6 +54,10 @@ def run_items(run: Run, header: str, items: Sequence[Item], *, per_condition_tim
     When a counterexample falls into a known finding's region and the item has an exclusion clause for
     it, the item is re-run with the region excluded, so that a *different* violation is still found.
     """
+    dev = os.environ.get("VERIF_DEV_FAMILY")       # development aid only: restrict a scratch run to families containing this text
+    if dev:
+        items = [it for it in items if dev in it.family]
+        run.notes.append(f"DEVELOPMENT RUN restricted to families containing {dev!r}")
     by_name = {it.name: it for it in items}
     todo = list(items)
     excluded: Dict[str, List[str]] = {}
